@@ -143,6 +143,11 @@ def handle (st : St) (line : String) : St × String :=
             let v ← parseValue v
             pure (st, showDoc (d.set p v))
           | .error _ => pure (st, (if d.has p then "1 " else "0 ") ++ showValue (d.get p))
+        | "norm" => do
+          match normalize (← parseGoVal (← j.getObjVal? "v")) with
+          | .ok v => pure (st, "ok " ++ showValue v)
+          | .error .mapKey => pure (st, "err map-key")
+          | .error .unsupportedType => pure (st, "err unsupported")
         | "rempty" => do
           let r ← parseRange (← j.getObjVal? "r")
           pure (st, if r.isEmpty then "1" else "0")
